@@ -439,6 +439,26 @@ def r07_8(chk):
             chk.violation("R07.8", k, m.loc(node), f"{why}: {name}=0.0 (a legitimate value, e.g. a length on its lower bound) is treated as absent")
         else:
             chk.ok("R07.8", k, m.loc(fn), f"{good} identity test(s) against None on {sorted(fields)}; no truthiness selection", nontrivial=bool(good))
+    # the export side: a rule mapping is never thinned by the truth value of its entries (init / value 0.0 would go)
+    for rel, q in (("recalculation/definition.py", "_InputDefn.get_param_rules"), ("recalculation/setting.py", "Setting.get_param_rule_dict"), ("evolve/likelihood_function.py", "LikelihoodFunction.get_param_rules")):
+        m = chk.repo.module(rel)
+        try:
+            fn = m.func(q)
+        except Exception:
+            cands = [f for f in ast.walk(m.tree) if isinstance(f, ast.FunctionDef) and f.name == q.split(".")[-1]]
+            if not cands:
+                raise AnalysisError(f"{rel}::{q} not found (anchor moved)")
+            fn = cands[0]
+        bad = None
+        for comp in [c for c in walk_no_nested(fn) if isinstance(c, (ast.DictComp, ast.ListComp, ast.GeneratorExp, ast.SetComp))]:
+            for gen in comp.generators:
+                vals = {x.id for x in ast.walk(gen.target) if isinstance(x, ast.Name)}
+                for cond in gen.ifs:
+                    tested = [nm for nm, _ in _truth_tests(cond)]
+                    if any(nm in vals for nm in tested) and ".items()" in norm(gen.iter):
+                        bad = comp
+        n += 1
+        chk.decide(bad is None, "R07.8", key(m, q, "rule entries are not dropped by truth value"), m.loc(bad if bad is not None else fn), "no truthiness filter over the entries of a rule", f"`{norm(bad)[:70] if bad is not None else ''}` leaves out every falsy entry of the exported rule: init / value 0.0 (a collapsed branch length) disappears, and on import the new function keeps its default 1.0")
     chk.floor("R07.8", 2, "set_param_rule and assign_all test their numeric fields against None")
 
 
